@@ -163,6 +163,7 @@ def eval_witness(facts, w, ss):
        ["fn_call", fn_rx, callee_rx]      some function whose path matches fn_rx calls a matching callee
        ["entry_range", fn_rx, local, lo, hi]    the entry facts of the closed function bound parameter _local within [lo, hi]
        ["operand_within", i, lo, hi, n]   the interval analysis bounds operand i of at least n sites of the group in [lo, hi]
+       ["arg_within_const_generic", fn_rx, callee_rx, i]  every such call passes argument i within [0, N], N its first const generic
        ["fn_ret_const", fn_rx, value]     some function matching fn_rx assigns the constant to its return place
        ["any", w1, w2, ...]               one of the alternatives holds"""
     kind = w[0]
@@ -227,6 +228,29 @@ def eval_witness(facts, w, ss):
                 if lo <= r[0] and r[1] <= hi:
                     n += 1
         return n >= need, txt + f" ({n} today)"
+    if kind == "arg_within_const_generic":
+        # every call of callee_rx inside functions matching fn_rx passes argument i within [0, N] where N is the call's
+        # first const generic argument (e.g. stack_mem::<N, _>(size, ..) only with size <= N)
+        from .. import argsum
+        a = argsum.get(facts)
+        crx = re.compile(w[2])
+        txt = f"every call of /{w[2]}/ in /{w[1]}/ passes argument {w[3]} within its const generic bound"
+        n = 0
+        for b in _fn_bodies(facts, w[1]):
+            iv = a.iv_of(b)
+            for bb, t in b.calls():
+                if not crx.search(t.callee):
+                    continue
+                n += 1
+                cargs = t.d.get("cargs") or ""
+                m = re.match(r"^\[?\s*(\d+)_usize\b", cargs if isinstance(cargs, str) else str(cargs[0]) if cargs else "")
+                st = iv.state_at_term(bb) if iv is not None else None
+                if st is None and iv is not None:
+                    continue      # dead call
+                r = iv.rng(st, t.args[w[3]]) if (iv is not None and w[3] < len(t.args)) else None
+                if m is None or r is None or r[0] < 0 or r[1] > int(m.group(1)):
+                    return False, txt + f" (line {t.line}: argument in {r}, const generic args {str(cargs)[:24]})"
+        return n > 0, txt + f" ({n} call(s))"
     if kind == "fn_call":
         rx = re.compile(w[2])
         bodies = _fn_bodies(facts, w[1])
